@@ -731,6 +731,69 @@ theorem counterexample_trailing_blank_through_file :
     objEq (fun _ _ => none) (.concept (fileRoundTrip d)) (.concept d) = .ok false := by
   refine ⟨by rw [mkConcept_spec]; decide, by decide, by decide⟩
 
+/-! ## sharper statements on the thresholds and on the hash contract -/
+
+/-- **which attribute, as equivalences on the regenerated thresholds** (prefix / marker literals and the 16-character
+limit come from the source through `ctorValueAttr`, `urnPrefix`, `urlMarker`; `urn_test_is_specification` ties them to the
+specification's own literals): for every accepted argument tuple the value sits in URNCodeValue iff it is a URN / URL, in
+LongCodeValue iff it is neither and longer than 16 characters, in CodeValue iff it is neither and at most 16 long -/
+theorem value_attribute_iff (v s m : String) (ver : Option String) (d : DS) (hd : mkConcept v s m ver = .ok d) :
+    (DS.has d "URNCodeValue" = true ↔ specIsUrn v = true) ∧
+    (DS.has d "LongCodeValue" = true ↔ (specIsUrn v = false ∧ v.length > 16)) ∧
+    (DS.has d "CodeValue" = true ↔ (specIsUrn v = false ∧ v.length ≤ 16)) := by
+  obtain ⟨_, _, rfl⟩ := mkConcept_ok v s m ver d hd
+  unfold stdKeyword
+  by_cases hu : specIsUrn v = true
+  · simp only [hu, if_true]
+    cases ver <;> simp (disch := decide) [builtDS, DS.has, DS.get, lookup_cons_ne]
+  · have hu' : specIsUrn v = false := by simpa using hu
+    simp only [hu', Bool.false_eq_true, if_false]
+    by_cases hl : v.length ≤ 16
+    · have : ¬ v.length > 16 := by omega
+      simp only [hl, if_true]
+      cases ver <;> simp (disch := decide) [builtDS, DS.has, DS.get, lookup_cons_ne, this]
+    · have h2 : v.length > 16 := by omega
+      simp only [hl, if_false]
+      cases ver <;> simp (disch := decide) [builtDS, DS.has, DS.get, lookup_cons_ne, h2]
+
+/-- **the hash contract, at its exact boundary**: `a == b` implies `hash(a) == hash(b)` for every pair in which no side is
+a RETIRED SRT value (a current SRT code is fine) — sharper than `eq_implies_hash_eq`; the excluded pairs are exactly those
+of `counterexample_alias_hash_and_dict` -/
+theorem eq_implies_hash_eq_unless_retired (h : String → Int) (retired : String → String → Option String) (a b : Obj)
+    (ha : a.wf) (hb : b.wf)
+    (hna : ∀ v, specScheme a = some "SRT" → specValue a = some v → retired "SRT" v = none)
+    (hnb : ∀ v, specScheme b = some "SRT" → specValue b = some v → retired "SRT" v = none)
+    (he : objEq retired a b = .ok true) : hashOf h a = hashOf h b := by
+  rw [objEq_key retired a b ha hb] at he
+  simp only [Except.ok.injEq, decide_eq_true_eq] at he
+  have hk : ∀ o : Obj, o.wf → (∀ v, specScheme o = some "SRT" → specValue o = some v → retired "SRT" v = none) →
+      key retired o = (specValue o, specScheme o, specVersion o) := by
+    intro o ho hn
+    obtain ⟨sc, hs⟩ := wf_scheme_some o ho
+    obtain ⟨v, hv⟩ := wf_value_some o ho
+    unfold key mapKey
+    rw [hs, hv]
+    by_cases h1 : sc = "SRT"
+    · subst h1
+      simp [hn v hs hv]
+    · simp [h1]
+  rw [hk a ha hna, hk b hb hnb] at he
+  simp only [Prod.mk.injEq] at he
+  exact (hash_congr h a b ha hb he.2.1 he.1).1
+
+/-- **operands that are neither a `Code` nor a `CodedConcept`** (tuples, strings, None, plain datasets): the regenerated
+`__eq__` leaves the code comparison and hands over to `Dataset.__eq__` (branch 1 of `Gen.conceptEqPlan`) — nothing of
+C17's equivalence is claimed there, and nothing of it is used by the theorems above -/
+theorem eq_foreign_operand_leaves_code_comparison :
+    conceptEqPlan false false = .ok 1 ∧ ∀ isCode isConcept, (isCode || isConcept) = true → conceptEqPlan isCode isConcept = .ok 0 := by
+  refine ⟨by decide, ?_⟩
+  intro a b hab
+  cases a <;> cases b
+  · cases hab
+  · decide
+  · decide
+  · decide
+
 /-! ## non-vacuity: the hypotheses are satisfiable by concrete, non-trivial inputs -/
 
 
@@ -780,5 +843,13 @@ example : (runH [⟨.dataset, [("CodeValue", "1"), ("CodeMeaning", "m"), ("Codin
   decide
 /-- file round trip: padding goes, an inner or leading blank stays -/
 example : stripTrailing "ab  \x00 " = "ab" ∧ stripTrailing " a b" = " a b" := by decide
+
+/-- `eq_implies_hash_eq_unless_retired`: a CURRENT SRT code (not in the retired table) on both sides satisfies the hypotheses -/
+example : ∀ v, specScheme (.code ⟨some "T-D0050", some "SRT", some "Tissue", none⟩) = some "SRT" →
+    specValue (.code ⟨some "T-D0050", some "SRT", some "Tissue", none⟩) = some v → exRetired "SRT" v = none := by
+  intro v _ hv
+  simp only [specValue, Option.some.injEq] at hv
+  subst hv
+  decide
 
 end HdVerif.C17
